@@ -954,13 +954,44 @@ func constSliceOf(g *ssa.Global) ([]ssa.Value, bool) {
 		if e == nil {
 			continue // zero
 		}
-		if _, isK := e.(*ssa.Const); !isK {
+		v, isK := constElem(e)
+		if !isK {
 			return bad()
 		}
-		_ = i
+		elems[i] = v
 	}
 	constSliceCache[g] = elems
 	return elems, true
+}
+
+// ConstTable: g is an array or slice variable that holds its literal of constants / plain functions
+// from initialisation on.
+func ConstTable(g *ssa.Global) bool {
+	if _, ok := constArrayOf(g); ok {
+		return true
+	}
+	_, ok := constSliceOf(g)
+	return ok
+}
+
+// constElem: a table element that is the same value wherever it is read: a constant, or a function
+// (a method expression or a named function, possibly converted to a named function type).
+func constElem(v ssa.Value) (ssa.Value, bool) {
+	for {
+		switch x := v.(type) {
+		case *ssa.Const:
+			return x, true
+		case *ssa.Function:
+			return x, len(x.FreeVars) == 0
+		case *ssa.ChangeType:
+			if _, isSig := x.Type().Underlying().(*types.Signature); !isSig {
+				return nil, false
+			}
+			v = x.X
+		default:
+			return nil, false
+		}
+	}
 }
 
 func isBuiltinCall(c *ssa.Call, names ...string) bool {
@@ -1024,12 +1055,32 @@ func constArrayOf(g *ssa.Global) ([]ssa.Value, bool) {
 					}
 					if ia, isIA := x.Addr.(*ssa.IndexAddr); isIA && ia.X == ssa.Value(g) {
 						k, isK := ConstInt(ia.Index)
-						_, isC := x.Val.(*ssa.Const)
+						val, isC := constElem(x.Val)
 						if f.Name() != "init" || !isK || !isC || k < 0 || k >= at.Len() || elems[k] != nil {
 							return bad()
 						}
-						elems[k] = x.Val
+						elems[k] = val
 						stores++
+					}
+				case *ssa.IndexAddr:
+					// an element address is loaded from or (in init) stored to, nothing else: it does not travel
+					if x.X == ssa.Value(g) {
+						for _, r := range Referrers(x) {
+							switch y := r.(type) {
+							case *ssa.UnOp:
+							case *ssa.Store:
+								if y.Addr != ssa.Value(x) {
+									return bad()
+								}
+							case *ssa.DebugRef:
+							default:
+								return bad()
+							}
+						}
+					}
+				case *ssa.Slice:
+					if x.X == ssa.Value(g) {
+						return bad() // g[:] hands out writable storage
 					}
 				}
 			}
